@@ -91,3 +91,11 @@ def plan(vc):
 from contracts import c26_placement as _C26
 harness('C22', 'replicas-follow-keyspace-update', functions=['cassandra.metadata.Metadata._update_keyspace', 'cassandra.metadata.TokenMap.rebuild_keyspace',
                                                            'cassandra.metadata.TokenMap.get_replicas'], native='contracts.native.c26:replay')(_C26.keyspace_update)
+
+
+# The contract assumed of the child policy above - it never plans a host whose distance it reports IGNORED, and it plans every other live host once - is what keeps
+# "no host of the child plan is lost" true end to end.  For the child every default configuration uses (DCAwareRoundRobinPolicy, plain or under
+# DefaultLoadBalancingPolicy) it is C21's postcondition; it is re-discharged here so that a change to that child's distance()/plan agreement fails this property too.
+from contracts import c21_lb_plans as _C21
+_DC = 'cassandra.policies.DCAwareRoundRobinPolicy.'
+harness('C22', 'child[DCAwareRoundRobinPolicy]-plan-agrees-with-distance', functions=[_DC + 'make_query_plan', _DC + 'distance', _DC + '_dc'], native='contracts.native.c21:replay')(_C21.dc_plan)
